@@ -164,7 +164,7 @@ def decMany : Nat → Nat → Bytes → Except CErr (List Item × Bytes)
 end
 
 /-- decode the first data item of `bs`; returns the item and the unread rest -/
-def decode (bs : Bytes) : Except CErr (Item × Bytes) := decItem (2 * bs.length) bs
+def decode (bs : Bytes) : Except CErr (Item × Bytes) := decItem (2 * bs.length + 1) bs
 
 /-! ### UTF-8 (port of Go's `utf8.Valid`) -/
 
